@@ -1239,3 +1239,31 @@ func runC16WholeBodyCompressed(c *Ctx) {
 		c.Undecided("compressing round tripper", "-", "not found")
 	}
 }
+
+// ---------- C15.R30: the gRPC server of the receiver stops gracefully ----------
+func init() { addRules("C15", runC15GracefulStop) }
+
+func runC15GracefulStop(c *Ctx) {
+	p := c.P
+	c.Rule("R30", "WHO", "a request that the consumer accepted is answered with success also while the receiver shuts down: the OTLP receiver stops its gRPC server with GracefulStop (in-flight calls are answered) – a hard Stop is made only in a function that has asked for the graceful stop first; with a hard stop the consumer gets the data, the exporter sees `Unavailable: error reading from server: EOF` (retryable) and sends it again", 1)
+	pk := p.Pkg("receiver/otlpreceiver")
+	if pk == nil {
+		c.Anchor("receiver/otlpreceiver")
+		return
+	}
+	isSrv := func(f *types.Func, name string) bool {
+		return f != nil && f.Name() == name && recvNamed(f) != nil && recvNamed(f).Obj().Name() == "Server" && recvNamed(f).Obj().Pkg() != nil && recvNamed(f).Obj().Pkg().Path() == "google.golang.org/grpc"
+	}
+	graceful, n := 0, 0
+	for _, fn := range p.AllSrcFuncs(pk) {
+		g := callsNamed(fn, func(f *types.Func) bool { return isSrv(f, "GracefulStop") })
+		graceful += len(g)
+		for _, h := range callsNamed(fn, func(f *types.Func) bool { return isSrv(f, "Stop") }) {
+			n++
+			c.Check(len(callsNamed(rootFn(fn), func(f *types.Func) bool { return isSrv(f, "GracefulStop") })) > 0 || len(g) > 0, "hard stop of the gRPC server in "+fnName(fn)+" follows a graceful one", p.Pos(h.Pos()), "GracefulStop in the same function", "the server is stopped with Stop only: a request that is inside the next consumer when Shutdown is called is accepted by the consumer and reported to the sender as a retryable transport error")
+		}
+	}
+	if n == 0 {
+		c.Check(graceful > 0, "the receiver stops its gRPC server gracefully", "-", fmt.Sprintf("%d GracefulStop call(s), no hard Stop", graceful), "no GracefulStop call found in the OTLP receiver")
+	}
+}
